@@ -44,12 +44,16 @@ func replayObligation(prop string, ob *Obligation, cfg string, overlay map[strin
 	dirName := unsafeName.ReplaceAllString(fmt.Sprintf("%s_%s_%s", ob.Harness, strings.Trim(ob.Case, "[]"), ob.Pos), "_")
 	dir := filepath.Join(replayRoot, prop, dirName)
 	os.MkdirAll(dir, 0o755)
-	for pfx, cr := range customReplayers {
-		if strings.HasPrefix(ob.Harness, pfx) {
-			ok, desc, detail := cr(prop, ob, cfg, dir)
-			v := Violation{Key: key, Desc: desc, Replay: dir, Ob: ob}
-			return v, ok, detail
+	best := ""
+	for pfx := range customReplayers {
+		if strings.HasPrefix(ob.Harness, pfx) && len(pfx) > len(best) {
+			best = pfx
 		}
+	}
+	if best != "" {
+		ok, desc, detail := customReplayers[best](prop, ob, cfg, dir)
+		v := Violation{Key: key, Desc: desc, Replay: dir, Ob: ob}
+		return v, ok, detail
 	}
 	ok, out := nativeReplay(ob, cfg, dir, overlay)
 	desc := fmt.Sprintf("%s: %s at %s; model reproduced natively: %s", ob.Harness, ob.Msg, ob.Pos, firstLines(out, 3))
@@ -261,11 +265,20 @@ func signSweepReplayer(prop string, ob *Obligation, cfg string, dir string) (boo
 	return ok, desc, firstLines(out, 3)
 }
 
+func batchSweepReplayer(prop string, ob *Obligation, cfg string, dir string) (bool, string, string) {
+	ok, out := sweepReplay("batch_sweep_test.go.tmpl", "TestVerifBatchSweep", "", cfg, dir)
+	desc := fmt.Sprintf("%s: solver found an interpretation violating \"%s\" (%s); confirmed on the real API: %s", ob.Harness, ob.Msg, ob.Pos, firstLines(out, 5))
+	return ok, desc, firstLines(out, 3)
+}
+
 func init() {
-	for _, p := range []string{"vh_C01_", "vh_C05_", "vh_C04_verify", "vh_C09_api"} {
+	for _, p := range []string{"vh_C06_", "vh_C04_batch", "vh_C05_batch", "vh_C07_batch", "vh_C13_batch", "vh_C03_batch"} {
+		customReplayers[p] = batchSweepReplayer
+	}
+	for _, p := range []string{"vh_C01_", "vh_C05_Verify", "vh_C04_verify", "vh_C09_api"} {
 		customReplayers[p] = verifySweepReplayer
 	}
-	for _, p := range []string{"vh_C02_"} {
+	for _, p := range []string{"vh_C02_", "vh_C14_GenerateKey", "vh_C14_accessors"} {
 		customReplayers[p] = signSweepReplayer
 	}
 }
